@@ -5,7 +5,7 @@ ID = "C05"
 SUBCMD = "c05"
 IMPORTS = ["Grammar", "Arith"]
 HARNESS = "c05_engine_harness"
-COQ_TARGETS = ["ArithSpec.vo", "ArithSpecProofs.vo", "Arith.vo", "ArithProofs.vo", "Props/C05.vo"]
+COQ_TARGETS = ["ArithSpec.vo", "ArithSpecProofs.vo", "Arith.vo", "ArithProofs.vo", "CompleteTrim.vo", "ArithAccept.vo", "Props/C05.vo"]
 CORRESPONDENCE = ("c05e_expected: Arith.arith_run (the ENGINE MODEL's parsley.Evaluate on the grammar Arith.arith_rules with the "
                   "binop interpreter, inputs up to 64 bytes: value and complete error text) = parsley.Evaluate on the real "
                   "combinators built from the same grammar term; ArithSpec.arith_ref (lexer + iterative reference evaluator) = "
@@ -332,7 +332,7 @@ MANIFEST = {
              "model of Evaluate returns the reference's value / division by zero at the reference's position, and a parse "
              "error whenever the reference rejects (C05_eval_sound, C05_rejects); with C02's fuel it neither runs out of "
              "fuel nor panics (C05_total); every well-formed expression without white space is accepted with its value "
-             "(C05_accepts_nows_partial, via C01/C04 completeness and C05_strip_sim), and for all byte strings up to 4/5 "
+             "(C05_accepts (full, via CompleteTrim.v: completeness for LeftTrim/RightTrim in mode WsSpacesNl), C05_accepts_nows_partial, via C01/C04 completeness and C05_strip_sim), and for all byte strings up to 4/5 "
              "bytes incl. white space model and reference agree completely (kernel computation). Every run compares "
              "parsley.Evaluate on the combinators built from the same grammar term with the engine model (value and complete "
              "error text, inputs <= 64 bytes) and with the specification (value, exact 'division by zero at f:<line>:<col>' "
